@@ -1096,6 +1096,7 @@ const c07Proj = "{| p_gas := false; p_transfers := true; p_logs := false; p_retd
 
 func init() {
 	runners["C07"] = func(c *ctx) {
+		c.stateProj = "sp_nonces" // the part of the state this property's theorems speak about
 		u := newUniverse()
 		u.NFTs = append(u.NFTs, []byte("NFC-778899"), []byte("SFD-aabbcc"))
 		c.rep.Rule = "every executed call is checked on the implementation: a successful ESDTNFTCreate returns big-endian(counter under ELRONDnonce‖token in the caller's pre-state + 1), stores the entry under that nonce and persists the counter; a successful ESDTNFTCreateRoleTransfer removes counter and role at the old holder, installs them at the new holder (same shard) or ships exactly (token, counter) in the message and installs them at delivery; re-delivery with the counter still as shipped changes nothing. Histories under single-creator discipline (role set once by the system contract, then only handed over from the current holder; several tokens per creator): hand-written families (create / burn the latest / transfer away / hand-over same shard, cross shard, delivered late, to itself, back and forth) and generated histories mixing creates, hand-overs, deliveries in any order, transfers, burns, freezes, pauses; the set of issued (token, nonce) is tracked over the whole history: no nonce twice, each create above the highest nonce ever issued, role and counter only at the tracked holder. Histories with repeated delivery of the hand-over message (REDELIVER) exercise F9; a uniqueness failure is minimised by delta debugging and gets the F9 signature only if the minimal history still needs a repeated delivery. Plus random walks of the shared generator (per-call checks). Every executed call and every whole history (incl. REDELIVER) is re-evaluated in the Coq model (return data, transfers, state / final world). distinct = distinct (shard state, call)."
